@@ -59,6 +59,8 @@ Lemma done_clk m : clk (done sh m) = clk m.
 Proof. unfold done. destruct (sh_auto sh); reflexivity. Qed.
 Lemma done_sdat m : sdat (done sh m) = sdat m.
 Proof. unfold done. destruct (sh_auto sh); reflexivity. Qed.
+Lemma done_dur m : dur (done sh m) = dur m.
+Proof. unfold done. destruct (sh_auto sh); reflexivity. Qed.
 Lemma done_should m : should (done sh m) = if sh_auto sh then false else should m.
 Proof. unfold done. destruct (sh_auto sh); reflexivity. Qed.
 Lemma done_should_plain m : sh_auto sh = false -> should (done sh m) = should m.
